@@ -325,4 +325,9 @@ add("C20", "linearised data without the R(position) term", "nifty/re/evi.py", " 
 add("C20", "sampling uses the inversion controller", "nifty/cl/library/wiener_filter_curvature.py", "op = SamplingEnabler(M, Sinv, iteration_controller_sampling, Sinv)", "op = SamplingEnabler(M, Sinv, iteration_controller, Sinv)", "R20.3")
 add("C01", "mul_conj fast path without the shape guard", OPS + "diagonal_operator.py", "        if a.device_id == -1 and a.shape == b.shape:\n            return AnyArray(mul_conj(a.val, b.val))", "        if a.device_id == -1:\n            return AnyArray(mul_conj(a.val, b.val))", "R01.6")
 add("C10", "div_conj fast path without the shape guard", OPS + "diagonal_operator.py", "        if a.device_id == -1 and a.shape == b.shape:\n            return AnyArray(div_conj(a.val, b.val))", "        if a.device_id == -1:\n            return AnyArray(div_conj(a.val, b.val))", "R10.10")
+add("C03", "vdot Jacobian through the receiver not conjugated", "nifty/cl/linearization.py", "                VdotOperator(other)(self._jac).conjugate())", "                VdotOperator(other)(self._jac))", "R03.11")
+add("C03", "outer Jacobian applies the Jacobian to the value", "nifty/cl/linearization.py", "            return DiagonalOperator(oval, tgt, spc) @ bc @ self._jac", "            return DiagonalOperator(oval, tgt, spc) @ bc @ makeOp(self._jac(self._val))", "R03.12")
+add("C03", "clip helper refuses None again", "nifty/cl/pointwise.py", "    if not all(a is None or isinstance(a, (float, int) + ALLOWED_WRAPPEES)\n               for a in (a_min, a_max)):", "    if not isinstance(a_min, (float, int) + ALLOWED_WRAPPEES):", "R03.13")
+add("C03", "metric branch returns before the offset is added", "nifty/cl/operators/energy_operators.py", "        if self._offset != 0.:\n            res = res + self._offset\n        if not x.want_metric or self._ic_samp is None:\n            return res\n", "        if not x.want_metric or self._ic_samp is None:\n            if self._offset != 0.:\n                res = res + self._offset\n            return res\n", "R03.9")
+add("C01", "merged block-diagonal factors composed in swapped order", "nifty/cl/operators/block_diagonal_operator.py", "        res = {key: v1(v2)", "        res = {key: v2(v1)", "R01.7")
 VARIANTS = V
